@@ -21,7 +21,8 @@ NoCase == [ev |-> "none"]
 \* which name the cause of a failing black-box run of the same input.
 Init == /\ l = 1 /\ nbad = NoBad /\ c = NoCase /\ api = "" /\ cnt = 0 /\ cause = "" /\ cb = "" /\ cs = ""
         /\ lv = FALSE
-        /\ st = [cases |-> 0, runs |-> 0, ops |-> 0, overlong_sites |-> 0, load_unattributed |-> 0]
+        /\ st = [cases |-> 0, runs |-> 0, ops |-> 0, overlong_sites |-> 0, load_unattributed |-> 0,
+                 straddle_cases |-> 0, straddle_overruns |-> 0, straddle_accepted |-> 0]
 
 e == Rec[l]
 N == FromNat(c.n)
@@ -39,7 +40,7 @@ OpCause(o) ==
   ELSE ""
 
 \* The mutated / cut length-delimited field declares more bytes than remain.
-Over == c.site.kind # "none" /\ ~InBoundsW(c.site.p, c.site.len, N)
+Over == c.site.kind \notin {"none", "region"} /\ ~InBoundsW(c.site.p, c.site.len, N)
 
 First(a, b) == IF a # "" THEN a ELSE b
 \* o: the outcome of the run being judged
@@ -56,17 +57,31 @@ RunCause(o) ==
 CauseNow(o) == IF RunCause(o) # "" THEN RunCause(o)
                ELSE IF lv THEN "varint with >=10 continuation bytes"
                ELSE IF c.gen = "deepnest" THEN "deep nesting"
+               ELSE IF c.site.kind = "region" THEN "varint straddles the end of a region"
                ELSE ""
 
-Sig(class, why) == [api |-> api, class |-> class, cause |-> why]
-Ctx == [case |-> [id |-> c.id, n |-> c.n, gen |-> c.gen, lenclass |-> c.lenclass, site |-> c.site],
+\* build: the cargo profile of the binary that produced the case ("release":
+\* overflow checks off, "checked": overflow checks and debug assertions on)
+Sig(class, why) == [api |-> api, class |-> class, cause |-> why, build |-> c.build]
+
+\* Straddle family: a varint starts inside the region [site.p, site.p + site.len)
+\* (an embedded message or packed field) and ends after it.  ProtoReader.tla:
+\* the reader lets the varint through (1-byte check) and must refuse whatever
+\* comes next through that region's reader; a strict reader reports an error.
+\* The property allows a message or an error, so a decode that returns a
+\* message here is counted (DRIFT), not flagged.
+Straddle == c.site.kind = "region"
+REnd == WAdd(c.site.p, c.site.len)
+DecodeApi == api \in {"traced_buf", "traced_file", "parse_buf", "parse_file"}
+Ctx == [case |-> [id |-> c.id, n |-> c.n, gen |-> c.gen, lenclass |-> c.lenclass, site |-> c.site, build |-> c.build],
         event |-> e]
 
 Case == /\ e.ev = "case"
         /\ c' = e /\ api' = "" /\ cnt' = 0 /\ cause' = "" /\ cb' = "" /\ cs' = ""
         /\ lv' = LongVarint(e.b)
         /\ st' = [st EXCEPT !.cases = @ + 1,
-                            !.overlong_sites = @ + (IF e.site.kind # "none" /\ ~InBoundsW(e.site.p, e.site.len, FromNat(e.n)) THEN 1 ELSE 0)]
+                            !.straddle_cases = @ + (IF e.site.kind = "region" THEN 1 ELSE 0),
+                            !.overlong_sites = @ + (IF e.site.kind \notin {"none", "region"} /\ ~InBoundsW(e.site.p, e.site.len, FromNat(e.n)) THEN 1 ELSE 0)]
         /\ UNCHANGED nbad
 
 Run == /\ e.ev = "run"
@@ -81,7 +96,9 @@ Op == /\ e.ev = "op"
       /\ cause' = First(cause, OpCause(e))
       /\ cb' = IF api \in {"traced_buf", "traced_file"} THEN First(cb, OpCause(e)) ELSE cb
       /\ cs' = IF api = "traced_sniff" THEN First(cs, OpCause(e)) ELSE cs
-      /\ st' = [st EXCEPT !.ops = @ + 1]
+      /\ st' = [st EXCEPT !.ops = @ + 1,
+                          !.straddle_overruns = @ + (IF Straddle /\ api = "traced_buf" /\ e.k = "varint" /\ e.ok
+                                                        /\ WLt(e.p0, REnd) /\ WLt(REnd, e.p1) THEN 1 ELSE 0)]
       /\ UNCHANGED <<c, api, lv>>
       /\ IF IsBegin(e) THEN UNCHANGED nbad
          ELSE LET mono == MonotoneW(e.p0, e.p1)
@@ -106,7 +123,9 @@ End == /\ e.ev = "end"
               b2 == Flag(b1, linear, Sig("nonlinear", CauseNow(e.outcome)), Ctx)
           IN nbad' = Flag(b2, trunc, Sig("overlong field accepted", "site:" \o c.site.kind), Ctx)
        /\ st' = [st EXCEPT !.load_unattributed =
-                   @ + (IF ~Attributed /\ ~LegalOutcome(e.outcome) THEN 1 ELSE 0)]
+                   @ + (IF ~Attributed /\ ~LegalOutcome(e.outcome) THEN 1 ELSE 0),
+                          !.straddle_accepted =
+                   @ + (IF Straddle /\ DecodeApi /\ e.outcome = "ok" THEN 1 ELSE 0)]
 
 Next == /\ l <= NRec /\ l' = l + 1 /\ (Case \/ Run \/ Op \/ End)
 
@@ -115,4 +134,6 @@ Report == l = NRec + 1 =>
             /\ Stat("cases", st.cases) /\ Stat("runs", st.runs) /\ Stat("ops", st.ops)
             /\ Stat("overlong_sites", st.overlong_sites)
             /\ Stat("load_unattributed", st.load_unattributed)
+            /\ Stat("straddle_cases", st.straddle_cases) /\ Stat("straddle_overruns", st.straddle_overruns)
+            /\ Stat("straddle_accepted", st.straddle_accepted)
 =============================================================================
